@@ -208,7 +208,9 @@ def run(repo):
     for fq in ('lp.Model.get', 'ro.Model.get', 'dro.Model.get'):
         fi = repo.func(fq)
         res.functions.add(fq)
-        rets = [n.value for n in walk_no_nested(fi.node) if isinstance(n, ast.Return) and n.value is not None]
+        from .common import expand_locals
+        rets = [expand_locals(fi.node, n.value) for n in walk_no_nested(fi.node)
+                if isinstance(n, ast.Return) and n.value is not None]
         ok = bool(rets)
         detail = []
         for r in rets:
